@@ -662,6 +662,11 @@ def splice (args : List Val) : M σ Ret := fun s =>
     O.putLen (.int ((length : Int) + itemCount - deleteCount))
     pure (Ret.arr valueArray)) s
 
+/-- `return uint32Value(index)` / `return intValue(-1)` -/
+def indexRet : Option Nat → Ret
+  | some j => .val (.int j)
+  | none => .val (.int (-1))
+
 /-- builtinArrayLastIndexOf (builtin_array.go:487) -/
 def lastIndexOf (args : List Val) : M σ Ret := fun s =>
   let matchValue := argAt args 0
@@ -669,11 +674,9 @@ def lastIndexOf (args : List Val) : M σ Ret := fun s =>
   let index : Int := if args.length > 1 then toI64 E (argAt args 1) else length - 1
   let index : Int := if 0 > index then index + length else index
   let search (from_ : Int) : Res σ Ret :=
-    match searchDown (fun j => O.has s j && strictEquals E matchValue (O.get s j)) (from_ + 1).toNat with
-    | some j => .ok (Ret.val (.int j)) s
-    | none => .ok (Ret.val (.int (-1))) s
+    .ok (indexRet (searchDown (fun j => O.has s j && strictEquals E matchValue (O.get s j)) (from_ + 1).toNat)) s
   if index > length then search (length - 1)
-  else if 0 > index then .ok (Ret.val (.int (-1))) s
+  else if 0 > index then .ok (indexRet none) s
   else search index
 
 /-- builtinArrayEvery (builtin_array.go:514) -/
